@@ -121,6 +121,19 @@ def observe(out, w, inv):
     for level in ("gene", "transcript"):
         h, t = run.parse_counts(run.find(out, "OUT", ".%s_counts.tsv" % level))
         obs[level + "_counts"] = {f: tuple(v[0]) for f, v in (t or {}).items()}
+    for kind in ("exon", "intron"):
+        fp = run.find(out, "OUT", ".%s_counts.tsv" % kind)
+        if fp is None:
+            continue
+        tab = {}
+        for l in open(fp):
+            if l.startswith("#") or not l.strip():
+                continue
+            v = l.rstrip("\n").split("\t")
+            s_, e_ = inv(v[0], int(v[1]), int(v[2]))
+            strand = "".join(sorted({"+": "-", "-": "+"}.get(c, c) for c in v[3])) if mirror else "".join(sorted(v[3]))
+            tab.setdefault((v[0], s_, e_, strand, tuple(sorted(v[5].split(",")))), []).append((v[7], v[8]))
+        obs[kind + "_feature_counts"] = {k: tuple(sorted(x)) for k, x in tab.items()}
     mp = os.path.join(out, "OUT", "OUT.transcript_models.gtf")
     if os.path.exists(mp):
         ts = run.gtf_transcripts(run.parse_gtf(mp))
@@ -260,6 +273,22 @@ def case(args):
         w, tag = assignment_world(param)
         extra = ["--no_model_construction"]
         models = False
+    elif kind == "c13":
+        # C13's annotations (overlapping / contained / shared / antisense exons, nested introns, intron-less loci) with all slot-subset
+        # reads: exon and intron inclusion/exclusion tables of the mirrored input must be the mirrored tables
+        from props import c13
+        w = c13.make_world(param, 0)
+        tag = "c13-" + c13.vtag(param)
+        extra = ["--no_model_construction", "--count_exons"]
+        models = False
+    elif kind == "mixed":
+        # the multi-chromosome world of C06/C10 (FSM, ISM, novel in/not in catalog, novel genes, mono-exonic reads, multimappers
+        # across and within chromosomes); all alignments are noise-free
+        from vlib import worlds as W
+        w = W.mixed_world(param, groups=False, multimappers=True)
+        tag = "mixed-%d" % param
+        extra = ["--model_construction_strategy", "all"]
+        models = True
     elif kind == "noise":
         # C14's noise family (misaligned / fake / retained features next to every exon of a 7-exon isoform): the corrected
         # alignments of the mirrored input must be the mirror image of the corrected alignments
@@ -326,6 +355,17 @@ def run(ctx):
     for sc in scen:
         for tr in list(shifts) + ["reflect"]:
             jobs.append(("mix", sc, tr, ctx.scratch))
+    from props import c13
+    ids = sorted(c13.ISO_MENU)
+    c13_variants = [0, 1, 2] + [(isos, sec) for n in (1, 2) for isos in itertools.combinations(ids, n) for sec in c13.SECOND]
+    if quick:
+        c13_variants = c13_variants[:3] + c13_variants[3::9]
+    for v in c13_variants:
+        for tr in (["reflect"] if quick else ["reflect", 257]):
+            jobs.append(("c13", v, tr, ctx.scratch))
+    for n_chr in ((2,) if quick else (2, 3)):
+        for tr in (["reflect", 257] if quick else list(shifts) + ["reflect"]):
+            jobs.append(("mixed", n_chr, tr, ctx.scratch))
     from props import c14
     for strategy in (("default_ont", "all") if quick else sorted(c14.STRATEGIES)):
         for preset in (("default",) if quick else sorted(c14.PRESETS)):
